@@ -17,7 +17,15 @@ import (
 type opSpec struct {
 	Op    string     `json:"op"` // store | fetch | clean
 	Ver   int        `json:"ver,omitempty"`
+	Key   string     `json:"key,omitempty"` // "" = the scenario's default key
 	Fault *faultSpec `json:"fault,omitempty"`
+}
+
+func (o opSpec) key() string {
+	if o.Key == "" {
+		return cacheKey
+	}
+	return o.Key
 }
 
 type seqScenario struct {
@@ -47,11 +55,11 @@ func runSeqOp(w *world, kind string, op opSpec, observe bool) opObs {
 	var err error
 	switch op.Op {
 	case "store":
-		err = c.store(op.Ver)
+		err = c.storeK(op.key(), op.Ver)
 	case "fetch":
-		err = c.fetch(destDir)
+		err = c.fetchK(op.key(), destDir)
 	case "clean":
-		err = c.clean()
+		err = c.cleanK(op.key())
 	}
 	c.done()
 	o := opObs{Res: errKind(err), Installed: -1, NOps: c.n, Crashed: c.crashed.Load(), trace: c.trace}
@@ -80,48 +88,71 @@ func runSeqOp(w *world, kind string, op opSpec, observe bool) opObs {
 //	(2) after a Store that reported success, every Fetch that reports success returns that version, and a fault-free
 //	    Fetch (after stale-lock cleaning if a client died meanwhile) does report success — until the next Store.
 func seqOracle(r *h.Run, sc seqScenario, obs []opObs) {
-	stored := map[int]bool{}
-	visible := -1  // version of the last Store that reported success, -1 if the last Store failed / none yet
-	dirty := false // a client died since (mutable: its lock may be left behind until CleanEntry)
+	type keyState struct {
+		stored  map[int]bool
+		visible int  // version of the last Store under this key that reported success, -1 if that Store failed / none yet
+		dirty   bool // a client died since (mutable: its lock may be left behind until CleanEntry)
+	}
+	// every key has its own entry: what happens under one key says nothing about, and must not change, another key
+	keys := map[string]*keyState{}
+	multi := ""
 	for i, op := range sc.Ops {
 		o := obs[i]
+		st := keys[op.key()]
+		if st == nil {
+			st = &keyState{stored: map[int]bool{}, visible: -1}
+			keys[op.key()] = st
+		}
+		if len(keys) > 1 {
+			multi = ":several-keys"
+		}
 		// a client that died, or whose context ended under it (Unlock(ctx) then refuses to work), may leave the entry lock
 		// behind: it goes stale and CleanEntry removes it
 		gone := o.Crashed || o.CtxEnded
 		switch op.Op {
 		case "store":
-			stored[op.Ver] = true
+			st.stored[op.Ver] = true
 			if o.Res == "ok" {
-				visible = op.Ver
-				dirty = gone
+				st.visible = op.Ver
+				st.dirty = gone
 			} else {
-				visible = -1
+				st.visible = -1
 				if gone {
-					dirty = true
+					st.dirty = true
 				}
 			}
 		case "clean":
 			if o.Res == "ok" && !gone {
-				dirty = false
+				st.dirty = false
 			}
 			if gone {
-				dirty = true
+				st.dirty = true
 			}
 		case "fetch":
 			if o.Res == "ok" {
-				if o.Installed < 0 || !stored[o.Installed] {
-					r.Fail("fetch-success-not-a-stored-version:"+sc.Kind+":"+o.Damage+sc.Env.sig(),
-						fmt.Sprintf("op %d: Fetch reported success but the destination holds %s", i, o.Damage), sc)
-				} else if visible >= 0 && o.Installed != visible {
-					r.Fail("store-success-not-visible:"+sc.Kind+":other-version"+sc.Env.sig(),
-						fmt.Sprintf("op %d: Store(v%d) reported success, a later Fetch installed v%d", i, visible, o.Installed), sc)
+				switch {
+				case len(st.stored) == 0:
+					r.Fail("fetch-of-never-stored-key-succeeds:"+sc.Kind+sc.Env.sig(),
+						fmt.Sprintf("op %d: nothing was ever stored under key %q, yet Fetch reported success (destination: %s)", i, op.key(), o.Damage), sc)
+				case o.Installed < 0 || !st.stored[o.Installed]:
+					what := o.Damage
+					for k2, s2 := range keys {
+						if k2 != op.key() && o.Installed >= 0 && s2.stored[o.Installed] {
+							what = "version-of-another-key"
+						}
+					}
+					r.Fail("fetch-success-not-a-stored-version:"+sc.Kind+":"+what+multi+sc.Env.sig(),
+						fmt.Sprintf("op %d: Fetch(%q) reported success but the destination holds %s (v%d)", i, op.key(), what, o.Installed), sc)
+				case st.visible >= 0 && o.Installed != st.visible:
+					r.Fail("store-success-not-visible:"+sc.Kind+":other-version"+multi+sc.Env.sig(),
+						fmt.Sprintf("op %d: Store(%q, v%d) reported success, a later Fetch installed v%d", i, op.key(), st.visible, o.Installed), sc)
 				}
-			} else if visible >= 0 && op.Fault == nil && !(dirty && sc.Kind == "mutable") && !o.Crashed {
-				r.Fail("store-success-not-visible:"+sc.Kind+":fetch-fails-"+o.Res+sc.Env.sig(),
-					fmt.Sprintf("op %d: Store(v%d) reported success, a later fault-free Fetch fails (%s)", i, visible, o.Res), sc)
+			} else if st.visible >= 0 && op.Fault == nil && !(st.dirty && sc.Kind == "mutable") && !o.Crashed {
+				r.Fail("store-success-not-visible:"+sc.Kind+":fetch-fails-"+o.Res+multi+sc.Env.sig(),
+					fmt.Sprintf("op %d: Store(%q, v%d) reported success, a later fault-free Fetch fails (%s)", i, op.key(), st.visible, o.Res), sc)
 			}
 			if gone {
-				dirty = true
+				st.dirty = true
 			}
 		}
 	}
